@@ -86,6 +86,11 @@ func main() {
 				// between "returned from the pool / the store" and "write the shared variable",
 				// which the pool's own lock would otherwise always order.
 				y := insertCallYields(p, f)
+				// and at the start of every function literal handed to a worker pool or started
+				// as a goroutine: when a task starts relative to its submitter is the runtime's
+				// choice (with one processor the pool hands over synchronously, which hides every
+				// "the loop went on before the task looked at its variables" problem)
+				y += insertTaskStarts(f)
 				ticks += y
 				rep.Yields += y
 			}
@@ -277,6 +282,31 @@ func insertCallYields(p *packages.Package, f *ast.File) int {
 	ast.Inspect(f, func(nd ast.Node) bool {
 		if fl, ok := nd.(*ast.FuncLit); ok {
 			doBlock(fl.Body, false) // (doBlock does not descend into nested literals; Inspect does)
+		}
+		return true
+	})
+	return n
+}
+
+// insertTaskStarts prepends verifrt.DoStart() to function literals passed to Invoke/Submit or started with go.
+func insertTaskStarts(f *ast.File) int {
+	n := 0
+	mark := func(fl *ast.FuncLit) {
+		fl.Body.List = append([]ast.Stmt{&ast.ExprStmt{X: &ast.CallExpr{Fun: sel("verifrt", "DoStart")}}}, fl.Body.List...)
+		n++
+	}
+	ast.Inspect(f, func(nd ast.Node) bool {
+		switch x := nd.(type) {
+		case *ast.GoStmt:
+			if fl, ok := x.Call.Fun.(*ast.FuncLit); ok {
+				mark(fl)
+			}
+		case *ast.CallExpr:
+			if se, ok := x.Fun.(*ast.SelectorExpr); ok && (se.Sel.Name == "Invoke" || se.Sel.Name == "Submit") && len(x.Args) == 1 {
+				if fl, ok := x.Args[0].(*ast.FuncLit); ok {
+					mark(fl)
+				}
+			}
 		}
 		return true
 	})
